@@ -60,6 +60,27 @@ Theorem C02_sub_spec : forall d fixed r',
             r' = (select_by (d_ids d) (fun n => negb (mem_s n (map fst fixed))) (fst r), snd r).
 Proof. exact d_sub_spec. Qed.
 
+(* CHAINS.  A clause applied to the result of anything (another clause, an element-wise / dataset∘dataset / set operator) in
+   ONE statement sees exactly that result — in particular every component an earlier calc or rename of the chain created,
+   under the name it then has: the chain equals the script that names the intermediate result *)
+Theorem C02_chain_sees_intermediate_result : forall k e x r n,
+  deval e x = Ok r -> ~ In n (kvars k) -> deval e (plug k x) = deval ((n, r) :: e) (plug k (DVar n)).
+Proof. exact deval_plug_let. Qed.
+Theorem C02_chain_is_flat_script : forall k e x r n out,
+  deval e x = Ok r -> ~ In n (kvars k) -> n <> out ->
+  run_script e [(out, plug k x)] out = run_script e [(n, x); (out, plug k (DVar n))] out.
+Proof. exact nested_is_flat. Qed.
+
+(* a component created by calc and renamed later in the same chain (the calc-time name is no component of the result) *)
+Example C02_calc_then_rename_example :
+  let D := mkD ["Id_1"; "Id_2"]%string ["Me_1"; "Me_2"]%string
+               [([VInt 1; VStr "A"], [VInt 1; VInt 10]); ([VInt 1; VStr "B"], [VNull; VInt 20]); ([VInt 2; VStr "A"], [VInt 3; VInt 30])] in
+  deval [("DS_1"%string, D)]
+        (DRename (DSub (DCalc (DVar "DS_1") [("Me_3"%string, CBin Add (CCol "Me_1") (CCol "Me_2"))]) [("Id_2"%string, VStr "A")])
+                 [("Me_3"%string, "Me_9"%string)])
+  = Ok (mkD ["Id_1"%string] ["Me_1"; "Me_2"; "Me_9"]%string [([VInt 1], [VInt 1; VInt 10; VInt 11]); ([VInt 2], [VInt 3; VInt 30; VInt 33])]).
+Proof. vm_compute. reflexivity. Qed.
+
 Example C02_example :
   let D := mkD ["Id_1"%string; "Id_2"%string] ["Me_1"%string; "Me_2"%string]
                [([VInt 1; VStr "A"], [VInt 6; VNull]); ([VInt 2; VStr "B"], [VNull; VInt 1]); ([VInt 3; VStr "A"], [VInt 1; VInt 2])] in
@@ -77,3 +98,5 @@ Print Assumptions C02_calc_frame.
 Print Assumptions C02_keep_drop_frame.
 Print Assumptions C02_rename_frame.
 Print Assumptions C02_sub_spec.
+Print Assumptions C02_chain_sees_intermediate_result.
+Print Assumptions C02_chain_is_flat_script.
